@@ -1,6 +1,6 @@
 """C16 — typed wiring: no type/integrity-violating flow; modules run once, in order.
 
-Engine D (bounded-exhaustive enumeration of the real WiringDiagram / DiagramExecutor), four
+Engine D (bounded-exhaustive enumeration of the real WiringDiagram / DiagramExecutor), five
 sub-spaces, each enumerated completely within the stated bounds:
 
  (a) acceptance  all 21x21 ordered (data type, integrity) port pairs through connect() and
@@ -10,7 +10,14 @@ sub-spaces, each enumerated completely within the stated bounds:
                  a handler, EVERY external-input assignment; reference = Kahn on the declared graph
  (c) labels      chains / fan-out / join diagrams over all label pairs x handler result kinds x
                  external-input kinds x enforce_static_checks
- (d) capabilities union over modules for all capability subsets
+ (d) capabilities union over modules for all capability subsets, repeated / interleaved calls
+ (e) histories   small diagrams x every wire SEQUENCE (repetition + order) x two executions on the
+                 same objects with a mutation in between (re-registration, fresh executor, one more
+                 connect) x both option values x both forms of "no external input"
+
+Every execution of (b), (c), (e) is crossed with enforce_static_checks in {True, False}: the option has
+no documented effect, its name speaks of the static (type/integrity per wire) checks only, and nothing
+the statement says about scheduling or labels is conditional on it -- the oracle never reads it.
 
 The reference is written from the property text: accepted <=> same data type and
 rank(src) >= rank(dst) with UNTRUSTED < VALIDATED < TRUSTED (own table, by label NAME).
@@ -135,7 +142,18 @@ def prepare(mods, wires):
     p.diagram = d
     p.accepted = []
     p.n_connect = 0
-    p.attempted = tuple(wires)
+    p.attempted = ()
+    p.wires_in = {}
+    p.acyclic = True
+    extend(p, wires)
+    return p
+
+
+def extend(p, wires):
+    """Attempt more connects on an already prepared diagram (also used for the initial ones); the
+    reference bookkeeping (accepted wires, sources per port, acyclicity) follows the observed verdicts."""
+    d = p.diagram
+    p.attempted = tuple(p.attempted) + tuple(wires)
     for w in wires:
         sm, sp, dm, dp = w
         src = p.outs.get(sm, {}).get(sp)
@@ -174,12 +192,24 @@ def prepare(mods, wires):
 
 # ---- stage 2: one execution ----------------------------------------------------------------------
 
-def _mk_handler(name, outs, kind, log):
-    """kind: raw | none | missing | extra | L:<label> | T:<type> (deviation applies to the first output port)."""
+FALSY = ("none", "zero", "str", "list")  # falsy-but-valid payloads: None, 0, "", []
+
+
+def _falsy(k):
+    return {"none": None, "zero": 0, "str": "", "list": []}[k]
+
+
+def _same(a, b):
+    return type(a) is type(b) and a == b
+
+
+def _mk_handler(name, outs, kind, log, gen=0):
+    """kind: raw | none | missing | extra | L:<label> | T:<type> | F:<falsy raw payload> | V:<correctly labelled
+    TypedValue with a falsy payload> (the deviation applies to the first output port)."""
     ports = list(outs)
 
     def h(inputs):
-        log.append((name, dict(inputs)))
+        log.append((name, dict(inputs), gen))
         if kind == "none":
             return None
         res = {q: f"{name}.{q}" for q in ports}
@@ -198,6 +228,10 @@ def _mk_handler(name, outs, kind, log):
             res[q0] = TypedValue(DataType[t], IntegrityLabel[kind[2:]], f"{name}.{q0}")
         elif kind[0] == "T":
             res[q0] = TypedValue(DataType[kind[2:]], IntegrityLabel[l], f"{name}.{q0}")
+        elif kind[0] == "F":
+            res[q0] = _falsy(kind[2:])
+        elif kind[0] == "V":
+            res[q0] = TypedValue(DataType[t], IntegrityLabel[l], _falsy(kind[2:]))
         else:
             raise AssertionError(kind)
         return res
@@ -207,8 +241,8 @@ def _mk_handler(name, outs, kind, log):
 
 def _handler_status(outs, kind):
     """consistent | contradicts | either, judged from the property text."""
-    if kind == "raw":
-        return "consistent"
+    if kind == "raw" or kind[:2] in ("F:", "V:"):
+        return "consistent"  # the payload is not part of the declaration
     if kind == "extra":
         return "either"  # an undeclared extra output: statement silent; WiringError or a correct run both fine
     if not outs:
@@ -221,27 +255,58 @@ def _handler_status(outs, kind):
     return "consistent" if kind[2:] == t else "contradicts"
 
 
+def _src_payload(p, handlers, s, sp):
+    """What the handler of s puts on its output port sp (when its result is consistent)."""
+    kind = handlers.get(s)
+    if kind and kind[:2] in ("F:", "V:") and p.outs[s] and sp == next(iter(p.outs[s])):
+        return _falsy(kind[2:])
+    return f"{s}.{sp}"
+
+
 def _ext_value(m, q, port, kind):
+    """-> (value handed to execute(), legal for the port?, payload)."""
     tok = f"ext:{m}.{q}"
     if kind == "raw":
-        return tok, True
+        return tok, True, tok
+    if kind[0] == "F":
+        return _falsy(kind[2:]), True, _falsy(kind[2:])
+    if kind[0] == "V":
+        return TypedValue(DataType[port[0]], IntegrityLabel[port[1]], _falsy(kind[2:])), True, _falsy(kind[2:])
     if kind[0] == "L":
-        return TypedValue(DataType[port[0]], IntegrityLabel[kind[2:]], tok), RANK[kind[2:]] >= RANK[port[1]]
-    return TypedValue(DataType[kind[2:]], IntegrityLabel[port[1]], tok), kind[2:] == port[0]
+        return TypedValue(DataType[port[0]], IntegrityLabel[kind[2:]], tok), RANK[kind[2:]] >= RANK[port[1]], tok
+    return TypedValue(DataType[kind[2:]], IntegrityLabel[port[1]], tok), kind[2:] == port[0], tok
+
+
+def make_executor(p, handlers, log, gen=0):
+    ex = DiagramExecutor(p.diagram)
+    register(p, ex, handlers, log, gen)
+    return ex
+
+
+def register(p, ex, handlers, log, gen):
+    for m, kind in handlers.items():
+        ex.register_module(m, _mk_handler(m, p.outs[m], kind, log, gen))
 
 
 def execute_case(p, handlers, ext, enforce, st):
-    """Run one execution of the prepared diagram. handlers: {module: kind} (absent = no handler);
-    ext: {module: {port: kind}}. Returns (viols, outcome)."""
+    """One execution on a fresh executor."""
+    log = []
+    return judge(p, make_executor(p, handlers, log), log, handlers, ext, enforce, st)
+
+
+def judge(p, ex, log, handlers, ext, enforce, st, form="dict"):
+    """Run one execute() of the prepared diagram on the given executor and judge it. handlers: {module: kind}
+    (absent = no handler); ext: {module: {port: kind}}; form: how 'no external value' is spelled ("dict": modules
+    without external values are left out; "alt": None when there is none at all, else every other module is
+    listed with an empty dict). The verdict is derived from the public call history only (accepted connects,
+    registered handlers, supplied values) and never from `enforce`. Returns (viols, outcome)."""
     v = []
     names = p.names
-    log = []
-    ex = DiagramExecutor(p.diagram)
-    for m, kind in handlers.items():
-        ex.register_module(m, _mk_handler(m, p.outs[m], kind, log))
+    del log[:]
     ext_in = {}
     ext_ok = True
     ext_unknown = False
+    ext_payload = {}
     for m, ports in ext.items():
         ext_in[m] = {}
         for q, kind in ports.items():
@@ -250,9 +315,16 @@ def execute_case(p, handlers, ext, enforce, st):
                 ext_unknown = True
                 ext_in[m][q] = "x"
                 continue
-            val, ok = _ext_value(m, q, port, kind)
+            val, ok, pay = _ext_value(m, q, port, kind)
             ext_in[m][q] = val
+            ext_payload[(m, q)] = pay
             ext_ok = ext_ok and ok
+    if form == "alt":
+        if not ext_in:
+            ext_in = None
+        else:
+            for m in names:
+                ext_in.setdefault(m, {})
     # ---- reference verdict --------------------------------------------------------------------
     reason = None
     if ext_unknown:
@@ -308,21 +380,22 @@ def execute_case(p, handlers, ext, enforce, st):
         st["nontrivial"] += 1
     # ---- oracle -----------------------------------------------------------------------------------
     if got == "nontermination":
-        v.append((f"sched:nontermination:{reason}", f"execute() exceeded {md.limit or 2 * len(names) + 4} sweeps / watchdog "
+        v.append((f"sched:nontermination:{reason}", f"execute() exceeded {2 * len(names) + 4} sweeps / watchdog "
                   f"(diagram unschedulable because: {reason}); expected WiringError"))
     elif got == "exception":
         v.append((f"sched:wrong-exception:{type(err).__name__}", f"execute() raised {type(err).__name__}: {err}; "
                   f"expected {'a report' if reason is None else 'WiringError'}"))
     elif got == "report" and reason is not None:
-        v.append((f"sched:accepted-unschedulable:{reason}", f"execute() returned a report (order {rep.execution_order}) "
-                  f"although the case is not executable: {reason}"))
+        v.append((f"sched:accepted-unschedulable:{reason}", f"execute(enforce_static_checks={enforce}) returned a report "
+                  f"(order {rep.execution_order}) although the case is not executable: {reason}"))
     elif got == "error" and reason is None and not lenient:
-        v.append(("sched:rejected-schedulable", f"execute() raised WiringError({err}) for a schedulable diagram with consistent handlers"))
+        v.append(("sched:rejected-schedulable", f"execute(enforce_static_checks={enforce}) raised WiringError({err}) for a "
+                  "schedulable diagram with consistent handlers"))
     if len(p.diagram.wires) != len(p.accepted):
         v.append(("sched:execute-changed-wires", f"wires after execute: {p.diagram.wires}"))
     # every handler invocation, whatever the final outcome
     count = {}
-    for m, inputs in log:
+    for m, inputs, _gen in log:
         count[m] = count.get(m, 0) + 1
         want = p.ins[m]
         if set(inputs) != set(want):
@@ -340,15 +413,15 @@ def execute_case(p, handlers, ext, enforce, st):
                 v.append(("flow:type", f"{m}.{q} declared {t} received a {val.data_type.name} value"))
             if RANK[val.integrity.name] < RANK[l]:
                 v.append(("flow:integrity", f"{m}.{q} requires {l} received a {val.integrity.name} value"))
-            allowed = {f"{s}.{sp}" for s, sp in p.wires_in.get((m, q), ())}
-            if q in ext.get(m, ()):
-                allowed.add(f"ext:{m}.{q}")
-            if val.value not in allowed:
-                v.append(("flow:misrouted", f"{m}.{q} received {val.value!r}; its declared sources are {sorted(allowed)}"))
+            allowed = [_src_payload(p, handlers, s, sp) for s, sp in p.wires_in.get((m, q), ())]
+            if (m, q) in ext_payload:
+                allowed.append(ext_payload[(m, q)])
+            if not any(_same(val.value, a) for a in allowed):
+                v.append(("flow:misrouted", f"{m}.{q} received {val.value!r}; its declared sources deliver {allowed}"))
     for m, c in count.items():
         if c > 1:
-            v.append(("sched:handler-called-twice", f"handler {m} invoked {c} times"))
-    called = [m for m, _ in log]
+            v.append(("sched:handler-called-twice", f"handler(s) of {m} invoked {c} times in one execution"))
+    called = [e[0] for e in log]
     pos = {m: i for i, m in enumerate(called)}
     early = [(w[0], w[2]) for w in p.accepted if w[2] in pos and (w[0] not in pos or pos[w[0]] > pos[w[2]]) and w[0] in handlers]
     if got == "report":
@@ -365,18 +438,18 @@ def execute_case(p, handlers, ext, enforce, st):
                 v.append(("sched:order-misreported", f"execution_order {order} but handlers ran as {called}"))
         for m in handlers:
             if count.get(m, 0) != 1:
-                v.append(("sched:not-run-exactly-once", f"handler {m} invoked {count.get(m, 0)} times in a completed run"))
+                v.append(("sched:not-run-exactly-once", f"handler of {m} invoked {count.get(m, 0)} times in a completed run"))
         if early and not any(k == "sched:ran-before-feeder" for k, _ in v):
             v.append(("sched:ran-before-feeder", f"handlers ran as {called}; wires {p.accepted}"))
         if set(rep.modules) != set(names):
             v.append(("sched:report-incomplete", f"report.modules has {sorted(rep.modules)}"))
         for m, me in rep.modules.items():
             for q, val in me.inputs.items():
-                t, l = p.ins[m].get(q, (None, None))
+                t, l = p.ins.get(m, {}).get(q, (None, None))
                 if t is None or not isinstance(val, TypedValue) or val.data_type.name != t or RANK[val.integrity.name] < RANK[l]:
                     v.append(("flow:report-input-label", f"report input {m}.{q}={val!r} declared {(t, l)}"))
             for q, val in me.outputs.items():
-                t, l = p.outs[m].get(q, (None, None))
+                t, l = p.outs.get(m, {}).get(q, (None, None))
                 if t is None or not isinstance(val, TypedValue) or val.data_type.name != t or val.integrity.name != l:
                     v.append(("flow:output-contradicts-declaration", f"recorded output {m}.{q}={val!r} declared {(t, l)}"))
     elif early:
@@ -415,15 +488,36 @@ def space_a(ctx, st):
         ctx.outcomes.add(("a-names",) + out)
         for k, w in viols:
             ctx.report(k, w, case)
+    for order in ("fwd", "rev"):
+        case = {"space": "accept-all", "order": order}
+        viols, out = run_accept_all(case, st)
+        ctx.outcomes.add(("a-all",) + out)
+        for k, w in viols:
+            ctx.report(k, w, case)
     ctx.sample({"space": "accept", "src": pts[4], "dst": pts[3]})
+
+
+def run_accept_all(case, st):
+    """History differential for connect(): all 441 port pairs attempted on ONE diagram (21 output ports on A, 21
+    input ports on B), in both orders; every verdict must equal the rule whatever was connected before."""
+    pts = [(t, l) for t in TYPES for l in LABELS]
+    mods = (("A", (), tuple((f"o{i}", t, l) for i, (t, l) in enumerate(pts))),
+            ("B", tuple((f"i{i}", t, l) for i, (t, l) in enumerate(pts)), ()))
+    wires = [("A", f"o{i}", "B", f"i{j}") for i in range(len(pts)) for j in range(len(pts))]
+    if case["order"] == "rev":
+        wires.reverse()
+    p = prepare(mods, tuple(wires))
+    st["connects"] += p.n_connect
+    st["diagrams"] += 1
+    return list(p.viols), (len(p.accepted),)
 
 
 def run_accept(case, st):
     src, dst = tuple(case["src"]), tuple(case["dst"])
     v = []
     exp = ref_accept(src, dst)
-    try:
-        cf = PT(*src).can_flow_to(PT(*dst))
+    try:  # fresh, distinct PortType objects (connect() below goes through the shared cached ones)
+        cf = PortType(DataType[src[0]], IntegrityLabel[src[1]]).can_flow_to(PortType(DataType[dst[0]], IntegrityLabel[dst[1]]))
     except Exception as e:  # noqa: BLE001
         cf = f"raised {type(e).__name__}"
     if cf is not exp:
@@ -528,19 +622,20 @@ def b_work(cfgs):
                         ext = {}
                         for m, q in es:
                             ext.setdefault(m, {})[q] = "raw"
-                        v, out = execute_case(p, handlers, ext, True, st)
-                        outcomes.add(out[:3])
-                        if v:
-                            case = {"space": "exec", "mods": mods, "wires": wires, "handlers": handlers, "ext": ext, "enforce": True}
-                            for k, w in v:
-                                st["violating"] += 1
-                                if k not in seen_keys:
-                                    seen_keys.add(k)
-                                    viols.append((k, w, case))
-                                else:
-                                    viols.append((k, None, None))
-                        elif out[1] == "report" and len(samples) < 1 and len(wires) >= 2:
-                            samples.append({"space": "exec", "mods": mods, "wires": wires, "handlers": handlers, "ext": ext, "enforce": True})
+                        for enforce in (True, False):
+                            v, out = execute_case(p, handlers, ext, enforce, st)
+                            outcomes.add(out[:3] + (enforce,))
+                            if v:
+                                case = {"space": "exec", "mods": mods, "wires": wires, "handlers": handlers, "ext": ext, "enforce": enforce}
+                                for k, w in v:
+                                    st["violating"] += 1
+                                    if k not in seen_keys:
+                                        seen_keys.add(k)
+                                        viols.append((k, w, case))
+                                    else:
+                                        viols.append((k, None, None))
+                            elif out[1] == "report" and len(samples) < 1 and len(wires) >= 2 and not enforce:
+                                samples.append({"space": "exec", "mods": mods, "wires": wires, "handlers": handlers, "ext": ext, "enforce": enforce})
     finally:
         _watchdog(False)
     return dict(st), viols, outcomes, samples
@@ -548,12 +643,15 @@ def b_work(cfgs):
 
 # ---- sub-space (c): labels at run time -----------------------------------------------------------------------
 
+_KF = [f"F:{k}" for k in FALSY] + ["V:none"]  # falsy-but-valid payloads, raw and explicitly labelled
+
+
 def _kinds_out(t, wrong):
-    return ["raw", "none", "missing", "extra"] + [f"L:{l}" for l in LABELS] + [f"T:{w}" for w in wrong]
+    return ["raw", "none", "missing", "extra"] + [f"L:{l}" for l in LABELS] + [f"T:{w}" for w in wrong] + _KF
 
 
 def _kinds_ext(t, wrong):
-    return ["raw"] + [f"L:{l}" for l in LABELS] + [f"T:{w}" for w in wrong]
+    return ["raw"] + [f"L:{l}" for l in LABELS] + [f"T:{w}" for w in wrong] + _KF
 
 
 def c_cases(tier):
@@ -611,6 +709,14 @@ def c_cases(tier):
                         blocks.append((mods, (("A", "o", "C", "i1"), ("B", "o", "C", "i2")),
                                        {"A": _kinds_out(t, w1), "B": _kinds_out(t, w1), "C": ["raw"]},
                                        {("A", "a"): _kinds_ext(t, w1)}))
+        # S5: A -> B where B.i is ALSO (or, when the wire is rejected, ONLY) supplied externally, over all label
+        # tuples x external kinds; B declared first, so a wrongly admitted run would schedule B before its feeder
+        for lo in L:
+            for li in L:
+                for la in L:
+                    mods = (("B", (("i", t, li),), ()), ("A", (("a", t, la),), (("o", t, lo),)))
+                    blocks.append((mods, (("A", "o", "B", "i"),), {"A": ["raw", "F:none"] + [f"L:{l}" for l in L], "B": ["raw"]},
+                                   {("A", "a"): ["raw"], ("B", "i"): [None] + _kinds_ext(t, wall)}))
     return blocks
 
 
@@ -639,10 +745,11 @@ def c_work(blocks):
                 for ec in itertools.product(*[ek[q] for q in eports]):
                     ext = {}
                     for (m, q), kind in zip(eports, ec):
-                        ext.setdefault(m, {})[q] = kind
+                        if kind is not None:  # None = this port gets no external value
+                            ext.setdefault(m, {})[q] = kind
                     for enforce in (True, False):
                         v, out = execute_case(p, handlers, ext, enforce, st)
-                        outcomes.add(out[:3])
+                        outcomes.add(out[:3] + (enforce,))
                         if v:
                             case = {"space": "exec", "mods": mods, "wires": wires, "handlers": handlers, "ext": ext, "enforce": enforce}
                             for k, w in v:
@@ -665,44 +772,180 @@ CAPS = ("READ_FS", "NET", "MONEY")
 
 
 def run_caps(case, st):
+    """case: caps = one capability-name tuple per module; optional 'late' = index from which the modules are added
+    only AFTER a first required_capabilities() call; optional 'frozen' = capabilities given as frozensets.
+    Every call must return the union over the modules present at that moment, whatever was called before and
+    whatever the caller did with an earlier result."""
     d = WiringDiagram()
     want = set()
-    for i, cs in enumerate(case["caps"]):
-        d.add_module(ModuleSpec(name=f"m{i}", capabilities={Capability[c] for c in cs}))
-        want |= set(cs)
+    late = case.get("late")
+    mk = frozenset if case.get("frozen") else set
     st["caps_cases"] += 1
-    try:
-        got = d.required_capabilities()
-        names = {c.name for c in got}
-    except Exception as e:  # noqa: BLE001
-        return [(f"caps:raises:{type(e).__name__}", str(e))], ("raises",)
-    if names != want:
-        return [("caps:not-union", f"modules {case['caps']}: required_capabilities()={sorted(names)}, union is {sorted(want)}")], (len(names),)
-    return [], (len(names),)
+    n = len(case["caps"])
+    calls = 0
+    for i, cs in enumerate(tuple(case["caps"]) + (None,)):
+        if i == n or (late is not None and i >= late):
+            for rnd in range(3 if (i == n or i == late) else 1):
+                calls += 1
+                try:
+                    got = d.required_capabilities()
+                    names = {c.name for c in got}
+                except Exception as e:  # noqa: BLE001
+                    return [(f"caps:raises:{type(e).__name__}", str(e))], ("raises",)
+                if names != want:
+                    key = "caps:not-union" if calls == 1 else "caps:not-union:after-earlier-call"
+                    return [(key, f"modules {case['caps'][:i]} (call #{calls}): required_capabilities()={sorted(names)}, "
+                             f"union is {sorted(want)}")], (len(names),)
+                # the caller owns the result: emptying / polluting it must not change later answers
+                try:
+                    if rnd == 0:
+                        got.clear()
+                    elif rnd == 1:
+                        got.update(Capability)
+                except AttributeError:
+                    pass  # an immutable result is fine
+        if cs is None:
+            break
+        d.add_module(ModuleSpec(name=f"m{i}", capabilities=mk(Capability[c] for c in cs)))
+        want |= set(cs)
+    return [], (len(want),)
 
 
 def space_d(ctx, st):
     subsets = list(_subsets(CAPS))
     for n in range(0, 4):
         for combo in itertools.product(subsets, repeat=n):
-            case = {"space": "caps", "caps": combo}
-            v, out = run_caps(case, st)
-            ctx.outcomes.add(("d",) + out)
-            for k, w in v:
-                ctx.report(k, w, case)
+            for late in [None] + list(range(n)):
+                for frozen in (False, True):
+                    case = {"space": "caps", "caps": combo, "late": late, "frozen": frozen}
+                    v, out = run_caps(case, st)
+                    ctx.outcomes.add(("d",) + out)
+                    for k, w in v:
+                        ctx.report(k, w, case)
     for combo in _subsets(tuple(c.name for c in Capability)):
         case = {"space": "caps", "caps": (combo,)}
         v, out = run_caps(case, st)
         for k, w in v:
             ctx.report(k, w, case)
-    # external inputs for unknown module / port must be refused
+    # external inputs for unknown module / port must be refused, under both option values
     mods = (("A", (("a", "TEXT", "UNTRUSTED"),), (("o", "TEXT", "UNTRUSTED"),)),)
     for ext in ({"X": {"a": "raw"}, "A": {"a": "raw"}}, {"A": {"a": "raw", "zz": "raw"}}):
-        case = {"space": "exec", "mods": mods, "wires": (), "handlers": {"A": "raw"}, "ext": ext, "enforce": True}
-        v, out = run_exec_case(case, st)
-        ctx.outcomes.add(("d-ext",) + out[:3])
-        for k, w in v:
-            ctx.report(k, w, case)
+        for enforce in (True, False):
+            case = {"space": "exec", "mods": mods, "wires": (), "handlers": {"A": "raw"}, "ext": ext, "enforce": enforce}
+            v, out = run_exec_case(case, st)
+            ctx.outcomes.add(("d-ext",) + out[:3])
+            for k, w in v:
+                ctx.report(k, w, case)
+
+
+# ---- sub-space (e): histories and mutation on the same objects ------------------------------------------------------
+
+def e_configs(tier):
+    """Small port-count vectors; (max modules, max total in, max total out, max wire-sequence length)."""
+    N, imax, omax, wlen = (2, 2, 2, 2) if tier == "quick" else (3, 2, 2, 3)
+    out = []
+    for n in range(1, N + 1):
+        for ins in itertools.product(range(3), repeat=n):
+            if sum(ins) > imax:
+                continue
+            for outs in itertools.product(range(3), repeat=n):
+                if sum(outs) <= omax and sum(ins) * sum(outs) > 0:
+                    out.append((ins, outs))
+    out.sort(key=lambda c: (-(sum(c[0]) * sum(c[1])), -len(c[0]), c))
+    return out, (N, imax, omax, wlen)
+
+
+def run_seq(case, st, p=None):
+    """Two judged executions on the same diagram with a mutation in between:
+       between = none      same executor again
+                 rereg     every handler re-registered under its name (new closure, same behaviour)
+                 fresh     a second executor on the same diagram (the first one stays alive)
+                 connect   one more attempted connect on the diagram, then a second executor
+    Each execution is judged by the absolute oracle of judge(); keys of the second one are prefixed 'seq:'."""
+    if p is None:
+        p = prepare(case["mods"], case["wires"])
+        st["connects"] += p.n_connect
+        st["diagrams"] += 1
+    if p.viols:
+        return list(p.viols), ("prep-violation",)
+    handlers = dict(case["handlers"])
+    log = []
+    ex = make_executor(p, handlers, log, 0)
+    ext1, enf1 = case["first"]
+    v, o1 = judge(p, ex, log, handlers, {m: dict(q) for m, q in ext1.items()}, bool(enf1), st)
+    if v:
+        return v, ("first-violation",) + o1[:3]
+    between = tuple(case["between"])
+    if between[0] == "rereg":
+        register(p, ex, handlers, log, 1)
+    elif between[0] == "fresh":
+        ex = make_executor(p, handlers, log, 1)
+    elif between[0] == "connect":
+        before = p.n_connect
+        extend(p, (tuple(between[1]),))
+        st["connects"] += p.n_connect - before
+        if p.viols:
+            return [("seq:" + k, w) for k, w in p.viols], ("prep-violation",)
+        ex = make_executor(p, handlers, log, 1)
+    ext2, enf2, form = case["second"]
+    v, o2 = judge(p, ex, log, handlers, {m: dict(q) for m, q in ext2.items()}, bool(enf2), st, form)
+    return [("seq:" + k, w) for k, w in v], o1[:2] + o2[:3]
+
+
+def e_work(arg):
+    cfgs, wlen = arg
+    _watchdog(True)
+    st = collections.Counter()
+    viols = []
+    outcomes = set()
+    seen_keys = set()
+    samples = []
+    try:
+        for cfg in cfgs:
+            mods = _b_mods(cfg)
+            names = [m[0] for m in mods]
+            outp = [(m[0], q[0]) for m in mods for q in m[2]]
+            inp = [(m[0], q[0]) for m in mods for q in m[1]]
+            pairs = [(s[0], s[1], d[0], d[1]) for s in outp for d in inp]
+            exts = []
+            for es in _subsets(inp):
+                ext = {}
+                for m, q in es:
+                    ext.setdefault(m, {})[q] = "raw"
+                exts.append(ext)
+            firsts = [(ext, enf) for ext in exts for enf in (True, False)]
+            seconds = [(ext, enf, form) for ext in exts for enf in (True, False) for form in ("dict", "alt")]
+            betweens = [("none",), ("rereg",), ("fresh",)] + [("connect", w) for w in pairs]
+            for r in range(wlen + 1):
+                for wires in itertools.product(pairs, repeat=r):
+                    shared = prepare(mods, wires)
+                    st["connects"] += shared.n_connect
+                    st["diagrams"] += 1
+                    for between in betweens:
+                        for hs in _subsets(names):
+                            handlers = {m: "raw" for m in hs}
+                            for first in firsts:
+                                for second in seconds:
+                                    case = {"space": "seq", "mods": mods, "wires": wires, "handlers": handlers,
+                                            "first": first, "between": between, "second": second}
+                                    if between[0] == "connect":
+                                        v, out = run_seq(case, st)  # the diagram is mutated: build it anew each time
+                                    else:
+                                        v, out = run_seq(case, st, shared)
+                                    st["sequences"] += 1
+                                    outcomes.add(out)
+                                    for k, w in v:
+                                        st["violating"] += 1
+                                        if k not in seen_keys:
+                                            seen_keys.add(k)
+                                            viols.append((k, w, case))
+                                        else:
+                                            viols.append((k, None, None))
+                                    if not v and not samples and between[0] == "connect" and out[1] == "report" and out[3] == "error":
+                                        samples.append(case)
+    finally:
+        _watchdog(False)
+    return dict(st), viols, outcomes, samples
 
 
 # ---- driver --------------------------------------------------------------------------------------------------
@@ -759,6 +1002,15 @@ def run(ctx):
     res_c = _pmap_rot(c_work, cchunks, ctx.seed)
     stc = collections.Counter()
     _merge(ctx, res_c, stc, "c")
+    ecfgs, ebounds = e_configs(ctx.tier)
+    echunks = [(ecfgs[i::nchunks], ebounds[3]) for i in range(nchunks)]
+    echunks = [c for c in echunks if c[0]]
+    res_e = _pmap_rot(e_work, echunks, ctx.seed)
+    ste = collections.Counter()
+    _merge(ctx, res_e, ste, "e")
+    for k, n in ste.items():
+        ctx.stats["e." + k] += n
+        st[k] += n
     for k, n in stb.items():
         ctx.stats["b." + k] += n
         st[k] += n
@@ -780,22 +1032,37 @@ def run(ctx):
         traces_validated_against_impl=st["executions"],
         evaluations=evaluations,
         distinct_nontrivial=st["nontrivial"],
-        rule="engine D: (a) 21x21 port-type pairs x {pair, self-loop} through connect()+can_flow_to(); (b) every port-count "
-        "vector within the bounds x every subset of (output port, input port) pairs as attempted wires x every subset of modules "
-        "with a handler x every subset of input ports supplied externally; (c) chain/fan-out/join shapes x label tuples x handler "
-        "result kinds x external kinds x enforce flag; (d) capability subsets. states = diagrams built, transitions = connect() "
-        "calls + handler invocations, every case is distinct by construction; non-trivial = an execution in which at least one "
-        "handler actually ran (got past pre-flight)",
+        rule="engine D: (a) 21x21 port-type pairs x {pair, self-loop} through connect()+can_flow_to() on fresh objects, plus all "
+        "441 pairs on ONE diagram in both orders (verdicts independent of connect history); (b) every port-count vector within "
+        "the bounds x every subset of (output port, input port) pairs as attempted wires x every subset of modules with a handler "
+        "x every subset of input ports supplied externally (incl. wired-and-external) x enforce_static_checks in {True, False}; "
+        "(c) chain/fan-out/join/wired-and-external shapes x label tuples x handler result kinds (incl. falsy payloads None, 0, '', "
+        "[] raw and labelled) x external kinds (same) x enforce flag; (d) capability subsets x modules added before/after an earlier "
+        "call x set/frozenset, every call repeated after the caller emptied / polluted the previous result; (e) small diagrams x "
+        "every wire SEQUENCE up to the stated length (repetition = duplicate wire, both orders) x handler subsets x two executions "
+        "(external subset x enforce each; second also x spelling of 'no external value': omitted / None / empty dict) with "
+        "between them: nothing | re-register all handlers | second executor | one more connect (any pair) + second executor. "
+        "states = diagrams built, transitions = connect() calls + handler invocations, every case is distinct by construction; "
+        "non-trivial = an execution in which at least one handler actually ran (got past pre-flight)",
         exhaustive=True,
         bounds={"b_(modules,total_in,total_out)": [list(b) for b in bounds], "b_ports_per_module": "0..2 in, 0..2 out",
-                "b_port_configs": len(cfgs), "c_blocks": len(blocks), "sweep_budget": "2n+4"},
-        executions_b=stb["executions"], executions_c=stc["executions"],
+                "b_port_configs": len(cfgs), "c_blocks": len(blocks), "sweep_budget": "2n+4",
+                "e_(modules,total_in,total_out,wire_seq_len)": list(ebounds), "e_port_configs": len(ecfgs),
+                "options": "enforce_static_checks in {True, False} for every execution of (b), (c), (e)"},
+        executions_b=stb["executions"], executions_c=stc["executions"], executions_e=ste["executions"],
+        sequences_e=ste["sequences"],
     )
     ctx.assumptions += [
         "type/label checks read only declarations and value labels, scheduling reads only port names: (b) uses one uniform port "
         "type, (c) re-checks scheduling outcomes on its small mixed diagrams",
         "wire sets are attempted in one canonical order (lexicographic by source then destination port)",
         "handlers are pure closures that never raise; a handler raising is outside the statement",
+        "enforce_static_checks has no docstring; it is read as 'repeat the per-wire type/integrity check at delivery', which is "
+        "redundant on diagrams built through connect() with outputs coerced to their declared label: no asserted clause depends on it",
+        "after the diagram is mutated (one more connect) only a NEWLY constructed executor is judged: whether an existing executor "
+        "must follow later changes of its diagram is not something the statement decides",
+        "re-registration: the statement does not say which handler generation runs; asserted is only that the module's handler(s) "
+        "run exactly once per completed execution, with complete, correctly labelled inputs",
     ]
 
 
@@ -808,6 +1075,14 @@ def replay(ctx, case):
         return run_names(case, st)[0]
     if sp == "caps":
         return run_caps(case, st)[0]
+    if sp == "accept-all":
+        return run_accept_all(case, st)[0]
+    if sp == "seq":
+        _watchdog(True)
+        try:
+            return run_seq(case, st)[0]
+        finally:
+            _watchdog(False)
     if sp == "exec":
         _watchdog(True)
         try:
